@@ -277,3 +277,32 @@ _EXTRA = {
 }
 for _k, _v in _EXTRA.items():
     CLAIMED[_k]["text"] = CLAIMED[_k]["text"].rstrip() + " " + _v.strip()
+
+# clauses added after the third round of seeded changes
+_EXTRA3 = {
+    "C02": "Also (round 3): no Ok path of an entry point skips validate_conditions (C02.3).",
+    "C04": "Also (round 3): the condition parser receives the remaining budget cost_left; the budget is tested only by `*max_cost < X` "
+           "guards whose passing side subtracts the same X; spend triples keep (coin, puzzle, solution) order.",
+    "C06": "Also (round 3): charge-paired budget tests only (C06.2), so the verdict at an exact cost boundary is order independent.",
+    "C08": "Also (round 3): get_conditions_from_spendbundle runs under get_flags_for_height_and_constants(prev_tx_height, constants) | "
+           "MEMPOOL_MODE | DONT_VALIDATE_SIGNATURE with the height unmodified; validate_clvm_and_signature passes flags through.",
+    "C09": "Also (round 3): a condition is CREATE_COIN iff its opcode atom is exactly the byte 51 in both fast scans; non-atom opcodes are "
+           "skipped by additions_and_removals (C09.5).",
+    "C10": "Also (round 3): both finalize functions proceed iff total <= max block cost (non-strict, as admission).",
+    "C12": "Also (round 3): from_proof rejects only where deserialize_proof_impl does; pad_middles_for_proof_gen emits MIDDLE/EMPTY per "
+           "shared bit and the terminals at the first differing bit (exact path/effect table).",
+    "C13": "Also (round 3): Vec<T>::parse iterates 0..len with the wire length unmodified and pushes one element per iteration; "
+           "validation-skipping primitives only under TRUSTED (C13.4); generated Python codec methods call the right Streamable method (C13.W).",
+    "C14": "Also (round 3): generated Python decoders use the checked/unchecked/parse::<TRUSTED> variants they are named for (C14.W).",
+    "C15": "Also (round 3): exact verdict tables of verify / aggregate_verify / aggregate_verify_gt (C15.6); is_inf is the blst primitive on the point.",
+    "C16": "Also (round 3): derive_unhardened hashes exactly key bytes || idx.to_be_bytes() with the index unmodified on both sides.",
+    "C17": "Also (round 3): the hash-only encoder TreeHasher defines exactly encode_atom -> tree_hash_atom and encode_pair -> tree_hash_pair and "
+           "overrides nothing else (C17.5).",
+    "C18": "Also (round 3): get_keys_values reports the value field of the decoded leaf for every cached key; on load the free set is exactly "
+           "the blocks the traversal did not reach (C18.7).",
+    "C19": "Also (round 3): curry_and_treehash uses the decoded singleton struct's own mod hash / launcher id / launcher puzzle hash in the "
+           "curry shape (C19.1, shared with C17.4).",
+    "C20": "Also: generated to_json_dict / from_json_dict methods delegate to the trait impl of the same type (C20.W).",
+}
+for _k, _v in _EXTRA3.items():
+    CLAIMED[_k]["text"] = CLAIMED[_k]["text"].rstrip() + " " + _v.strip()
